@@ -454,7 +454,7 @@ def _model_unit(L, cval):
 
 def units(tier, seed):
     thorough = tier == 'thorough'
-    us = [_t3_unit(n) for n in ((4, 5, 6) if thorough else (3, 4))]
+    us = [_t3_unit(n) for n in ((3, 4, 5) if thorough else (3, 4))]
     for nd in range(1, 6):
         L = 4 if nd <= 2 else 3
         for mode in (('const', 'func') if nd <= 3 else ('func',)):
